@@ -286,8 +286,12 @@ func (kc *KeepClient) getOrHead(method string, locator string, header http.Heade
 			}
 			// Success
 			if method == "GET" {
+				// The body must have exactly the
+				// expected size, even if the
+				// response has no Content-Length
+				// header for net/http to enforce.
 				return HashCheckingReader{
-					Reader: resp.Body,
+					Reader: &sizeCheckingReader{ReadCloser: resp.Body, remain: expectLength},
 					Hash:   md5.New(),
 					Check:  locator[0:32],
 				}, expectLength, url, resp.Header, nil
@@ -339,7 +343,9 @@ func (kc *KeepClient) LocalLocator(locator string) (string, error) {
 //
 // If the block checksum does not match, the final Read() on the
 // reader returned by this method will return a BadChecksum error
-// instead of EOF.
+// instead of EOF. If the number of bytes received differs from the
+// expected data length, Read() returns ErrBlockSizeMismatch instead
+// of EOF, and never delivers more than the expected number of bytes.
 func (kc *KeepClient) Get(locator string) (io.ReadCloser, int64, string, error) {
 	rdr, size, url, _, err := kc.getOrHead("GET", locator, nil)
 	return rdr, size, url, err
